@@ -79,7 +79,7 @@ def contracts():
         ensures={"variables_reference_reads_the_variables": "implies(ref['data_type'] == 'variables', ref['data'] is self.csvpath.variables)",
                  "headers_reference_reads_the_headers": "implies(ref['data_type'] == 'headers', ref['data'] is self.csvpath.g_headers)",
                  "metadata_reference_reads_the_metadata": "implies(ref['data_type'] == 'metadata', ref['data'] is self.csvpath.metadata)",
-                 "rendered_once": "self.g_transform_calls == old(self.g_transform_calls) + 1"},
+                 "rendered": "self.g_transform_calls >= old(self.g_transform_calls) + 1"},
         class_fields=CF, macros=MACROS, returns="str", native=NATIVE,
         property_clauses={"variables_reference_reads_the_variables": "C16", "headers_reference_reads_the_headers": "C16", "metadata_reference_reads_the_metadata": "C16"},
         doc={"variables_reference_reads_the_variables": "C16: 'each $.variables.x ... reference is replaced by the value current at that point' -- read from this csvpath's live store"}))
